@@ -77,18 +77,36 @@ def peFindStagePrependAppend (f : PyFile) : Py (Option Bytes × Option Bytes) :=
 
 `PyFile.seekSet` accepts every non-negative offset.  A real file does not: `lseek` fails with EINVAL (→ `OSError`) for an
 offset above the file system's largest file offset `L` (measured in the sandbox, ext4 with 4 KiB blocks:
-`L = 2^44 - 4096`; tmpfs / xfs: `2^63 - 1`; io.BytesIO: `2^63 - 1`).  Every seek argument of the anchored code is below
-`2^34` — except `fh.seek(mz_offset + size)` of `find_stage_prepend_append`, whose `size` sums up to 65535 attacker-chosen
-`SizeOfRawData` dwords (≈ 2^48).  `prependAppendAtG` is `C18.prependAppendAt` with that one seek as a parameter
-(`Lemmas/C08.lean`: instantiated with `PyFile.seekSet` it *is* `C18.prependAppendAt`, by `rfl`), `seekL L` the seek of a
-file object with limit `L`. -/
+`L = 2^44 - 4096`; tmpfs / xfs: `2^63 - 1`), and every file object raises `OverflowError` above `2^63 - 1`.  Every seek
+argument of the anchored code is below `2^34` — except `fh.seek(mz_offset + size)` of `find_stage_prepend_append`, whose
+`size` sums up to 65535 attacker-chosen `SizeOfRawData` dwords (≈ 2^48).
 
-/-- `fh.seek(off)` where the file system of an OS file rejects offsets above `L` -/
+The code as it is now (fix ce8ae1d) wraps exactly that seek:
+
+    try:
+        fh.seek(mz_offset + size)
+    except (OSError, OverflowError, ValueError):
+        return (prepend, None)
+
+`prependAppendAtG guarded seekFinal` is `C18.prependAppendAt` with that one seek as a parameter; `guarded = true` is the
+code as it stands, `guarded = false` the code before the fix (kept for `Props/C08.lean` `…_refutes_old`).
+`Lemmas/C08.lean` proves that instantiated with `PyFile.seekSet` both coincide with `C18.prependAppendAt`.
+`seekL L` is the seek of a file object with limit `L`. -/
+
+/-- `fh.seek(off)` where offsets above `L` are rejected: EINVAL → `OSError` on an OS file (file-system limit),
+`OverflowError` on io.BytesIO (`L = 2^63 - 1`: Py_ssize_t) -/
 def seekL (L : Nat) (f : PyFile) (off : Int) : Py (Nat × PyFile) :=
-  if f.kind = .osFile ∧ off > (L : Int) then .error .osError else f.seekSet off
+  if off > (L : Int) then
+    match f.kind with
+    | .osFile => .error .osError
+    | .bytesIO => .error .overflowError
+  else f.seekSet off
+
+/-- `except (OSError, OverflowError, ValueError)` -/
+def seekCaught (e : PyExc) : Bool := e = .osError || e = .overflowError || e = .valueError
 
 open Gen.PeStruct C18 in
-def prependAppendAtG (seekFinal : PyFile → Int → Py (Nat × PyFile)) (f : PyFile) (mzOff : Nat) :
+def prependAppendAtG (guarded : Bool) (seekFinal : PyFile → Int → Py (Nat × PyFile)) (f : PyFile) (mzOff : Nat) :
     Py (Option Bytes × Option Bytes) × PyFile :=
   let pf : Option Bytes × PyFile :=
     if mzOff > 0 then
@@ -114,19 +132,30 @@ def prependAppendAtG (seekFinal : PyFile → Int → Py (Nat × PyFile)) (f : Py
             match readSections (fieldVal img fhNumberOfSections).toNat f5 with
             | (none, f6) => (.ok (prepend, none), f6)
             | (some secs, f6) =>
-              match seekFinal f6 ((mzOff : Int) + totalSize opt is64 secs) with   -- fh.seek(mz_offset + size)
-              | .error e => (.error e, f6)
+              match seekFinal f6 ((mzOff : Int) + totalSize opt is64 secs) with   -- try: fh.seek(mz_offset + size)
+              | .error e =>
+                if guarded && seekCaught e then (.ok (prepend, none), f6)         -- except (OSError, OverflowError, ValueError)
+                else (.error e, f6)
               | .ok (_, f7) =>
                 let r := f7.read 1024
                 if r.1.isEmpty then (.ok (prepend, none), r.2)
                 else (.ok (prepend, some (rstrip0 r.1)), r.2)
         else (.ok (prepend, none), f4)
 
-/-- `pe.find_stage_prepend_append(fh)` on a file object whose file system accepts offsets up to `L` -/
-def peFindStagePrependAppendL (L : Nat) (f : PyFile) : Py (Option Bytes × Option Bytes) :=
+/-- `pe.find_stage_prepend_append(fh)` with the final seek as a parameter (`guarded`: with / without the `try`) -/
+def peFindStagePrependAppendG (guarded : Bool) (seekFinal : PyFile → Int → Py (Nat × PyFile)) (f : PyFile) :
+    Py (Option Bytes × Option Bytes) :=
   match C18.findMzOffset f (some 0) MAXRANGE with
   | (none, _) => .ok (none, none)
-  | (some mzOff, f1) => (prependAppendAtG (seekL L) f1 mzOff).1
+  | (some mzOff, f1) => (prependAppendAtG guarded seekFinal f1 mzOff).1
+
+/-- `pe.find_stage_prepend_append(fh)` (the code as it stands) on a file object that accepts offsets up to `L` -/
+def peFindStagePrependAppendL (L : Nat) (f : PyFile) : Py (Option Bytes × Option Bytes) :=
+  peFindStagePrependAppendG true (seekL L) f
+
+/-- the same function BEFORE fix ce8ae1d (bare `fh.seek(mz_offset + size)`) -/
+def peFindStagePrependAppendLOld (L : Nat) (f : PyFile) : Py (Option Bytes × Option Bytes) :=
+  peFindStagePrependAppendG false (seekL L) f
 
 /-- measured on the sandbox's ext4 (`open(p, "rb").seek(2**44 - 4096)` succeeds, `seek(2**44 - 4095)` is EINVAL) -/
 def ext4MaxOffset : Nat := 2 ^ 44 - 4096
